@@ -211,6 +211,19 @@ UNITS = {
             I(RAW, r'^impl RawTableInner$', 'resize_inner', impl='RawTableInner'),
         ],
     ),
+    # C12 / C08 / C02: the allocation path: new_uninitialized, fallible_with_capacity, prepare_resize
+    'alloc': dict(
+        widths=[16, 8],
+        prelude='preludes/alloc.rs',
+        specs='contracts/alloc.vspec',
+        lemmas=['lemmas/alloc_lemmas.rs'],
+        extra='alloc_rules',
+        items=[
+            I(RAW, r'^impl RawTableInner$', 'new_uninitialized', impl='RawTableInner'),
+            I(RAW, r'^impl RawTableInner$', 'fallible_with_capacity', impl='RawTableInner'),
+            I(RAW, r'^impl RawTableInner$', 'prepare_resize', impl='RawTableInner'),
+        ],
+    ),
 }
 
 
@@ -806,6 +819,72 @@ def resize_rules(toks, i, out, hit):
             finally:
                 _FLAGS['top_rules'] = None
     return rehash_rules(toks, i, out, hit)
+
+
+def alloc_rules(toks, i, out, hit):
+    """unit `alloc`: R15b-d of unit iter (pointer add / cast / as_ptr / NonNull::new_unchecked), R2b, R5d, and
+       R15e  type `NonNull<u8>` -> `Block` (the allocated block)
+       R14b  `Self::NEW` -> `Self::new_singleton()`
+       R22   `E.ok_or_else(|| F)?` -> `match E { Some(v_) => v_, None => { return Err(F); } }`
+       R18c  `guard(X, CLOSURE)` as a value -> `X`, and the guard's type in a signature
+             `crate::scopeguard::ScopeGuard<Self, impl FnMut(&mut Self) + 'a>` -> `Self` (no-unwind path)"""
+    t = toks[i]
+    n = len(toks)
+    T = extract.T
+
+    def seq(k, *texts):
+        return k + len(texts) <= n and all(toks[k + a].text == x for a, x in enumerate(texts))
+    r = pow2_assert_rule(toks, i, out, hit)
+    if r is not None:
+        return r
+    if t.text == 'NonNull' and seq(i + 1, '<', 'u8', '>'):
+        out.append(T('Block', t.gap))
+        hit('R15e_nonnull_u8_type_to_Block')
+        return i + 4
+    if t.text == 'Self' and seq(i + 1, ':', ':', 'NEW'):
+        out.extend([T('Self', t.gap), T(':', ''), T(':', ''), T('new_singleton', ''), T('(', ''), T(')', '')])
+        hit('R14b_NEW_const_to_fn')
+        return i + 4
+    if t.text == 'crate' and seq(i + 1, ':', ':', 'scopeguard', ':', ':', 'ScopeGuard', '<', 'Self', ','):
+        k = i + 9
+        depth = 1
+        while k < n and depth:
+            k += 1
+            if toks[k].text == '<':
+                depth += 1
+            elif toks[k].text == '>' and toks[k - 1].text != '-':
+                depth -= 1
+        out.append(T('Self', t.gap))
+        hit('R18c_scopeguard_type_to_Self')
+        return k + 1
+    if t.kind == 'id' and t.text == 'guard' and seq(i + 1, '(') and toks[i + 2].kind == 'id' and seq(i + 3, ',') and not (out and out[-1].text in ('.', 'fn', '=')):
+        c = extract._find_close(toks, i + 1)
+        out.append(T(toks[i + 2].text, t.gap))
+        hit('R18c_scope_guard_elided')
+        return c + 1
+    if t.kind == 'id' and seq(i + 1, '.', 'ctrl_slice', '(', ')', '.', 'fill_empty', '(', ')'):
+        out.extend([T(t.text, t.gap), T('.', ''), T('ctrl_fill_empty', ''), T('(', ''), T(')', '')])
+        hit('R5d_ctrl_slice_fill_to_indexed_fill')
+        return i + 9
+    # R22: find `. ok_or_else ( | | F ) ?` following an expression that started at the last `=`
+    if t.text == '.' and seq(i + 1, 'ok_or_else', '(', '|', '|'):
+        c = extract._find_close(toks, i + 2)
+        if not seq(c + 1, '?'):
+            raise ExtractError('R22: ok_or_else without ?')
+        F = extract.rewrite(toks[i + 5:c], set(), _HITS, alloc_rules)
+        # the receiver expression: back to the token after the last `=` in out
+        k = len(out) - 1
+        while k >= 0 and out[k].text != '=':
+            k -= 1
+        if k < 0:
+            raise ExtractError('R22: receiver not found')
+        recv = out[k + 1:]
+        del out[k + 1:]
+        out.extend([T('match')] + recv + [T('{'), T('Some'), T('(', ''), T('v_', ''), T(')', ''), T('='), T('>', ''), T('v_'), T(',', ''),
+                    T('None'), T('='), T('>', ''), T('{'), T('return'), T('Err'), T('(', '')] + F + [T(')', ''), T(';', ''), T('}'), T('}')])
+        hit('R22_ok_or_else_question_to_match')
+        return c + 2
+    return iter_rules(toks, i, out, hit)
 
 
 def generate(unit_name, width, outdir):
